@@ -234,3 +234,8 @@ M('c08-wsgi-csv-option-dropped', 'C08', 'R5', 'falcon/request.py',
             else:
                 self._params = {}
 """, also=('C06',))
+
+M('c08-asgi-query-latin1', 'C08', 'R9', 'falcon/asgi/request.py',
+  "query_string = scope['query_string'].decode()", "query_string = scope['query_string'].decode('latin1')", also=('C04', 'C06'))
+M('c08-parse-query-string-memoised', 'C08', 'R8', 'falcon/util/uri.py',
+  "def parse_query_string(", "@functools.lru_cache(maxsize=512)\ndef parse_query_string(", also=('C19',))
